@@ -177,6 +177,36 @@ fn main() {
                     }
                 }
             }
+            // every function of three variables placed on every triple of variables >= 4 (the word-selecting
+            // ones and their in-word neighbours), classified for each variable of the triple: coupled
+            // structures such as x8 & (x6 ^ x7) that no random table contains
+            if n >= 7 {
+                let mut t = 0usize;
+                for a in 4..n {
+                    for b2 in a + 1..n {
+                        for c2 in b2 + 1..n {
+                            t += 1;
+                            if t % chunks != c {
+                                continue;
+                            }
+                            for g in 0..256u64 {
+                                let blocks = gen::small_support_blocks(n, &[a, b2, c2], g);
+                                for v in [a, b2, c2] {
+                                    both(ctx, n, |ty| Ev::new("classify", ty, n).tab(&blocks).int(v).st("small-support-sweep"));
+                                }
+                            }
+                        }
+                    }
+                }
+                ctx.exhaustive.insert(format!("all 3-variable functions on all triples of variables >= 4, n={}", n), true);
+            }
+            // all symmetric functions (n <= 10), every variable
+            if n <= 10 && c == 0 {
+                for blocks in gen::all_symmetric(n) {
+                    let v = rng.below(n);
+                    both(ctx, n, |ty| Ev::new("classify", ty, n).tab(&blocks).int(v));
+                }
+            }
         }
     });
     let mut required = Vec::new();
